@@ -47,6 +47,9 @@ Record tmpl := {
   t_precheck_nd_only : bool;   (* the floating-point arm of that range check is applied to ndarray sources only: for a list, np.asarray
                                   would INFER float64 (also for Python ints on both sides of 2^63) and lose the exact values, while
                                   np.array(list, dtype) checks every Python int / float itself (F-PY-PRECHECK-INFER fix) *)
+  t_src_exact : bool;          (* the source check is done by the helper _int_elements_ok_ (shape of the F-PY-NPSCALAR fix): EVERY numeric
+                                  element -- Python number, NumPy scalar, element of a nested or of a foreign-dtype ndarray -- must be an
+                                  INTEGER within the field's range, compared exactly; no float64 inference is trusted *)
   t_text_guard : bool          (* text is a sequence of bytes, never a number (shape of the F-PY-NUMTEXT fix): the bytes branch is taken by
                                   type alone and RAISES on an illegal length instead of falling through, and the conversion path raises
                                   ValueError for bytes / bytearray / str before np.array(text, dtype) could parse it as ONE number *)
@@ -58,7 +61,7 @@ Definition set_precheck (b : bool) (T : tmpl) : tmpl :=
      t_len_bytes := t_len_bytes T; t_len_nd := t_len_nd T; t_len_slow := t_len_slow T; t_bytes_max_w := t_bytes_max_w T;
      t_comp_isinstance := t_comp_isinstance T; t_union_clear_others := t_union_clear_others T;
      t_union_clear_after := t_union_clear_after T; t_union_ctor_count := t_union_ctor_count T; t_arr_precheck := b;
-     t_precheck_nd_only := t_precheck_nd_only T; t_text_guard := t_text_guard T |}.
+     t_precheck_nd_only := t_precheck_nd_only T; t_src_exact := t_src_exact T; t_text_guard := t_text_guard T |}.
 
 Definition set_text_guard (b : bool) (T : tmpl) : tmpl :=
   {| t_int_check := t_int_check T; t_float_check := t_float_check T; t_float_nonfinite_ok := t_float_nonfinite_ok T;
@@ -66,7 +69,7 @@ Definition set_text_guard (b : bool) (T : tmpl) : tmpl :=
      t_len_bytes := t_len_bytes T; t_len_nd := t_len_nd T; t_len_slow := t_len_slow T; t_bytes_max_w := t_bytes_max_w T;
      t_comp_isinstance := t_comp_isinstance T; t_union_clear_others := t_union_clear_others T;
      t_union_clear_after := t_union_clear_after T; t_union_ctor_count := t_union_ctor_count T; t_arr_precheck := t_arr_precheck T;
-     t_precheck_nd_only := t_precheck_nd_only T; t_text_guard := b |}.
+     t_precheck_nd_only := t_precheck_nd_only T; t_src_exact := t_src_exact T; t_text_guard := b |}.
 
 (* ---------------------------------------------------------------- values *)
 Inductive pyval :=
@@ -373,6 +376,7 @@ Fixpoint np_flat (x : pyval) : res (list nat * list pyval) :=
       | (s0, _) :: _ =>
           if all_eq_shape s0 subs then Ok (length subs :: s0, flat_map snd subs) else Raise ValueError
       end
+  | PArr _ [e] => Ok ([], [e])          (* a one-element array inside a list stands for a NumPy scalar / 0-d array: shape () *)
   | PArr _ l => Ok ([length l], l)
   | _ => Ok ([], [x])
   end.
@@ -407,10 +411,34 @@ Definition conv_elem (dt : dtype) (x : pyval) : res pyval :=
       if f_isfinite f then Ok (PInt (wrap_int dt (f_trunc f))) else conv_leaf dt x    (* (uintN_t)(int64_t)f for |f| < 2^63 *)
   | _, _ => conv_leaf dt x
   end.
+(* the same traversal with a tag per leaf: true = the leaf is an element of an ndarray (or a NumPy scalar / 0-d array, represented as a
+   one-element `PArr`) NESTED in a list: NumPy converts such elements by a C cast, not by the checked conversion of Python numbers *)
+Fixpoint np_flat_t (x : pyval) : res (list nat * list (bool * pyval)) :=
+  match x with
+  | PList l =>
+      subs <- (fix go (l : list pyval) : res (list (list nat * list (bool * pyval))) :=
+                 match l with
+                 | [] => Ok []
+                 | a :: r => s <- np_flat_t a ;; ss <- go r ;; Ok (s :: ss)
+                 end) l ;;
+      match subs with
+      | [] => Ok ([0%nat], [])
+      | (s0, _) :: _ =>
+          if forallb (fun p => if list_eq_dec Nat.eq_dec s0 (fst p) then true else false) subs
+          then Ok (length subs :: s0, flat_map snd subs) else Raise ValueError
+      end
+  | PArr _ [e] => Ok ([], [(true, e)])
+  | PArr _ l => Ok ([length l], map (fun e => (true, e)) l)
+  | _ => Ok ([], [(false, x)])
+  end.
+
+Definition conv_tagged (dt : dtype) (p : bool * pyval) : res pyval :=
+  if fst p then conv_elem dt (snd p) else conv_leaf dt (snd p).
+
 Definition np_array (dt : dtype) (x : pyval) : res (list pyval) :=
   match x with
   | PArr _ l => mapM (conv_elem dt) l
-  | _ => sl <- np_flat x ;; mapM (conv_leaf dt) (snd sl)
+  | _ => sl <- np_flat_t x ;; mapM (conv_tagged dt) (snd sl)
   end.
 
 (* ------------------------------------------------------------ element checks of the conformant variant *)
@@ -460,9 +488,25 @@ Definition int_leaf_ok (e : etype) (x : pyval) : bool :=
       end
   | _ => true
   end.
+(* _int_elements_ok_: a numeric element must be an INTEGER within [min, max]; bools are 0/1; non-numeric elements are left to np.array() *)
+Definition int_leaf_exact (e : etype) (x : pyval) : bool :=
+  match e with
+  | EPrim (KU w) | EPrim (KS w) =>
+      let k := match e with EPrim k => k | _ => KBool end in
+      match x with
+      | PInt z => int_in_range k z
+      | PFloat f => f_isfinite f && f_is_integer f && int_in_range k (f_trunc f)
+      | _ => true
+      end
+  | _ => true
+  end.
+
 Definition is_pyfloat (x : pyval) : bool := match x with PFloat _ => true | _ => false end.
 Definition int_src_ok (e : etype) (y : pyval) : bool :=
   negb (t_arr_precheck T) ||
+  if t_src_exact T then
+    match np_flat y with Ok sl => forallb (int_leaf_exact e) (snd sl) | Raise _ => true end
+  else
   match y with
   | PArr _ l => forallb (int_leaf_ok e) l
   | _ =>
